@@ -64,6 +64,11 @@ CHECKS = {
    text="_normalize_with_fence_detection/_evaluate_fence_line run under CrossHair on texts whose zone body is symbolic (<= 2 chars of ANY character for fence lengths 3, 4, 5 with/without tag and indentation; <= 4 chars for the plain layout; odd layouts at <= 1): exactly one span, the span's bytes identical to the input (tabs, backslashes, quotes, U+212B untouched), text before and after still NFC-normalised, marker/tag as written; nested (>= length) and unterminated fences give E007/E006. The fence-span branch of tokenize is lifted from the live source by AST slicing and executed on the detector's output: FENCE_OPEN/LITERAL_CONTENT/FENCE_CLOSE carry marker, tag and exactly the body, an indented fence reports its INDENT, scanning and line numbering resume after the zone. The real Parser and emit run on the real tokenizer's token layout for three skeletons (assignment value; bare block child first; bare child between siblings) with a symbolic LITERAL_CONTENT value <= 3 chars: fields equal the source, neighbours keep value and parent, output equals the expected canonical text. Three emission routes and six value pipelines (repair, write normalisation, eject JSON/Markdown, changes/mutations) leave the three fields untouched for symbolic content <= 4.",
    note="NFC replaced by the faithful-fragment stub; bodies longer than the bounds, fence length > 5 and octave_write's pre-lexing regex passes are outside the claim; listed finding zone-single-empty-line excluded as a family (body '' ) and re-confirmed by a witness.",
    ref="DESIGN.md §4 C05"),
+ "C15": dict(
+   technique="z3 disjointness queries on the emitter's scalar text languages + solver-indexed single-site mutations through the real sealer, emitter and reader",
+   text="Tamper evidence reduces to emit being injective on content. RX: the emission languages of the scalar kinds (bare strings, derived from the live source of needs_quotes; quoted strings; decimal ints; finite float reprs; true/false/null; list and fence openers) are shown pairwise disjoint for texts of any length by z3, so a value or value-type change always changes the text (quoting itself is injective by C04's escape/un-escape lemma). The real seal_document/verify_seal/extract_seal/_remove_seal_section then run on a rich and a minimal document for every mutation of a catalogue (value replacement incl. type-only change, rename, insert/delete/swap/move nodes at every container, envelope name, META add/change/delete, frontmatter, separator, one hash character), chosen by the solver, in memory and through emit + the real reader: NO_SEAL before sealing, VERIFIED after, re-sealing gives the same seal and text, every mutation gives INVALID; seven cosmetic respellings of the sealed text still verify.",
+   note="Real SHA-256 (collision freedom assumed); mutation runs are concrete per solver choice (finite catalogue, stated); comments and trailing comments are not in the property's list of sealed content; CLI seal/--verify-seal are thin wrappers.",
+   ref="DESIGN.md §4 C15"),
 }
 NOT_APPLICABLE = {
  "C06": "quantifies over interpreter configurations (PYTHONHASHSEED, locale, cwd, process boundaries, task interleavings); symbolic execution runs inside one configuration and cannot make these symbolic (DESIGN.md §4 C06)",
